@@ -219,9 +219,9 @@ pub enum EncodeError {
     ImportTypeMergeConflict {
         /// The name of the import.
         import: String,
-        /// The first conflicting instantiation node that introduced the implicit import.
+        /// The first conflicting node (an instantiation or an explicit import) that introduced the import.
         first: NodeId,
-        /// The second conflicting instantiation node.
+        /// The second conflicting node (an instantiation or an explicit import).
         second: NodeId,
         /// The type merge error.
         #[source]
@@ -1689,10 +1689,32 @@ impl<'a> CompositionGraphEncoder<'a> {
         for n in import_nodes {
             let node = &self.0.graph[n];
             if let NodeKind::Import(name) = &node.kind {
-                explicit_imports.insert(name.as_str(), n);
                 aggregator = aggregator
                     .aggregate(name, self.0.types(), node.item_kind, &mut checker)
-                    .unwrap();
+                    .map_err(|e| {
+                        // The import meets an earlier import of a
+                        // semver-compatible name that has an incompatible type
+                        let first = implicit_imports
+                            .iter()
+                            .find(|(other, _)| wac_types::are_semver_compatible(other, name))
+                            .map(|(_, index)| *index)
+                            .or_else(|| {
+                                explicit_imports
+                                    .iter()
+                                    .find(|(other, _)| {
+                                        wac_types::are_semver_compatible(other, name)
+                                    })
+                                    .map(|(_, index)| *index)
+                            })
+                            .unwrap_or(n);
+                        EncodeError::ImportTypeMergeConflict {
+                            import: name.clone(),
+                            first: NodeId(first),
+                            second: NodeId(n),
+                            source: e,
+                        }
+                    })?;
+                explicit_imports.insert(name.as_str(), n);
             }
         }
         Ok(aggregator)
